@@ -89,6 +89,10 @@ pub fn c04_runs(tier: Tier) -> Vec<(HistCfg, Caps)> {
                     cfg(m, 2, 5, b.clone(), vec![5, 1], obs.clone(), &format!("{}-d2", m.short())),
                     caps(tier, 8, 0),
                 ));
+                runs.push((
+                    cfg(m, 2, 4, b.clone(), vec![4, 2], obs.clone(), &format!("{}-d2-two-updates", m.short())),
+                    caps(tier, 8, 0),
+                ));
             }
         }
         Tier::Thorough => {
